@@ -36,42 +36,30 @@ def showElems (l : List (List Int)) : String :=
 
 def validKey (k : String) : Bool := k == "id" || k == "neg" || k == "sq"
 
+def elemOut (r : Option (List Int)) : String :=
+  match r with | some a => showIntList a | none => "ValueError"
+
 def stepSort (op k : String) (rest : List String) : String :=
   if !validKey k then "bad-op" else
-  match op, rest with
-  | "sort", r :: es =>
-    match parseElems? es with
-    | some x => if r == "0" then showElems (Sort.sorted (ltOf k) x false)
-                else if r == "1" then showElems (Sort.sorted (ltOf k) x true) else "bad-op"
-    | none => "bad-op"
-  | "npsort", es =>
-    match parseElems? es with
-    | some x => showElems (Sort.npSorted (ltOf k) x)
-    | none => "bad-op"
-  | "min", es =>
-    match parseElems? es with
-    | some x => match Sort.tmin (ltOf k) x with | some a => showIntList a | none => "ValueError"
-    | none => "bad-op"
-  | "max", es =>
-    match parseElems? es with
-    | some x => match Sort.tmax (ltOf k) x with | some a => showIntList a | none => "ValueError"
-    | none => "bad-op"
-  | "argmin", es =>
-    match parseElems? es with
-    | some x => match Sort.targmin (ltOf k) x with
-      | some (i, a) => toString i ++ " " ++ showIntList a | none => "ValueError"
-    | none => "bad-op"
-  | "argmax", es =>
-    match parseElems? es with
-    | some x => match Sort.targmax (ltOf k) x with
-      | some (i, a) => toString i ++ " " ++ showIntList a | none => "ValueError"
-    | none => "bad-op"
-  | "minmax", es =>
-    match parseElems? es with
-    | some x => match Sort.minMax (ltOf k) x with
-      | some (a, b) => showIntList a ++ " " ++ showIntList b | none => "ValueError"
-    | none => "bad-op"
-  | _, _ => "bad-op"
+  if op == "sort" then
+    match rest with
+    | r :: es => (do
+        let x ← parseElems? es
+        if r == "0" then pure (showElems (Sort.sorted (ltOf k) x false))
+        else if r == "1" then pure (showElems (Sort.sorted (ltOf k) x true)) else none).getD "bad-op"
+    | [] => "bad-op"
+  else (do
+    let x ← parseElems? rest
+    if op == "npsort" then pure (showElems (Sort.npSorted (ltOf k) x))
+    else if op == "min" then pure (elemOut (Sort.tmin (ltOf k) x))
+    else if op == "max" then pure (elemOut (Sort.tmax (ltOf k) x))
+    else if op == "argmin" then
+      pure ((Sort.targmin (ltOf k) x).elim "ValueError" (fun p => toString p.1 ++ " " ++ showIntList p.2))
+    else if op == "argmax" then
+      pure ((Sort.targmax (ltOf k) x).elim "ValueError" (fun p => toString p.1 ++ " " ++ showIntList p.2))
+    else if op == "minmax" then
+      pure ((Sort.minMax (ltOf k) x).elim "ValueError" (fun p => showIntList p.1 ++ " " ++ showIntList p.2))
+    else none).getD "bad-op"
 
 def showNet (net : Sort.Net) : String :=
   if net.isEmpty then "-" else " ".intercalate (net.map fun c => toString c.1 ++ ":" ++ toString c.2)
@@ -105,45 +93,52 @@ def parseOptInt? (s : String) : Option (Option Int) :=
 
 def stepBits (ts : List String) : String :=
   match ts with
-  | ["addbits", x, y] =>
-    match parseIntList? x, parseIntList? y with
-    | some x, some y => if x.length == y.length then showIntList (Bits.addBits x y) else "bad-op"
-    | _, _ => "bad-op"
-  | ["frombits", x] =>
-    match parseIntList? x with
-    | some x => toString (Bits.fromBits x)
-    | none => "bad-op"
-  | ["tobits", L, f, integral, a, l, rbits, rdivl] =>
-    match parseNat? L, parseNat? f, parseNat? integral, parseInt? a, parseNat? l, parseIntList? rbits,
-        parseInt? rdivl with
-    | some L, some f, some ig, some a, some l, some rbits, some rdivl =>
-      match Bits.toBits L f (ig != 0) a l rbits rdivl with
-      | some r => showIntList r
-      | none => "AssertionError"
-    | _, _, _, _, _, _, _ => "bad-op"
-  | ["find", mode, a, e, fk, x] =>
-    match parseMode? mode, parseInt? a, parseOptInt? e, parseFSpec? fk, parseIntList? x with
-    | some mode, some a, some e, some fs, some x =>
-      match Bits.find mode a x e fs with
-      | (some nf, y) => toString nf ++ " " ++ showIntList y
-      | (none, y) => showIntList y
-    | _, _, _, _, _ => "bad-op"
-  | ["unitvec", a, n] =>
-    match parseInt? a, parseNat? n with
-    | some a, some n =>
-      if n == 0 then "bad-op" else
-      showIntList (Bits.unitVector (Bits.bitsOf a (Bits.bitLength (n - 1))) n)
-    | _, _ => "bad-op"
-  | ["tz", L, a, l, rbits, rdivl] =>
-    match parseNat? L, parseInt? a, parseNat? l, parseIntList? rbits, parseInt? rdivl with
-    | some L, some a, some l, some rbits, some rdivl => showIntList (Bits.trailingZeros L a l rbits rdivl)
-    | _, _, _, _, _ => "bad-op"
-  | ["gcp2", L, a, b, l, ra, rda, rb, rdb] =>
-    match parseNat? L, parseInt? a, parseInt? b, parseNat? l, parseIntList? ra, parseInt? rda,
-        parseIntList? rb, parseInt? rdb with
-    | some L, some a, some b, some l, some ra, some rda, some rb, some rdb =>
-      toString (Bits.gcp2 L a b l ra rda rb rdb)
-    | _, _, _, _, _, _, _, _ => "bad-op"
+  | ["addbits", x, y] => (do
+      let x ← parseIntList? x
+      let y ← parseIntList? y
+      if x.length == y.length then pure (showIntList (Bits.addBits x y)) else none).getD "bad-op"
+  | ["frombits", x] => (do
+      let x ← parseIntList? x
+      pure (toString (Bits.fromBits x))).getD "bad-op"
+  | ["tobits", L, f, integral, a, l, rbits, rdivl] => (do
+      let L ← parseNat? L
+      let f ← parseNat? f
+      let ig ← parseNat? integral
+      let a ← parseInt? a
+      let l ← parseNat? l
+      let rbits ← parseIntList? rbits
+      let rdivl ← parseInt? rdivl
+      pure ((Bits.toBits L f (ig != 0) a l rbits rdivl).elim "AssertionError" showIntList)).getD "bad-op"
+  | ["find", mode, a, e, fk, x] => (do
+      let mode ← parseMode? mode
+      let a ← parseInt? a
+      let e ← parseOptInt? e
+      let fs ← parseFSpec? fk
+      let x ← parseIntList? x
+      let r := Bits.find mode a x e fs
+      pure (r.1.elim (showIntList r.2) (fun nf => toString nf ++ " " ++ showIntList r.2))).getD "bad-op"
+  | ["unitvec", a, n] => (do
+      let a ← parseInt? a
+      let n ← parseNat? n
+      if n == 0 then none else
+      pure (showIntList (Bits.unitVector (Bits.bitsOf a (Bits.bitLength (n - 1))) n))).getD "bad-op"
+  | ["tz", L, a, l, rbits, rdivl] => (do
+      let L ← parseNat? L
+      let a ← parseInt? a
+      let l ← parseNat? l
+      let rbits ← parseIntList? rbits
+      let rdivl ← parseInt? rdivl
+      pure (showIntList (Bits.trailingZeros L a l rbits rdivl))).getD "bad-op"
+  | ["gcp2", L, a, b, l, ra, rda, rb, rdb] => (do
+      let L ← parseNat? L
+      let a ← parseInt? a
+      let b ← parseInt? b
+      let l ← parseNat? l
+      let ra ← parseIntList? ra
+      let rda ← parseInt? rda
+      let rb ← parseIntList? rb
+      let rdb ← parseInt? rdb
+      pure (toString (Bits.gcp2 L a b l ra rda rb rdb))).getD "bad-op"
   | _ => "bad-op"
 
 def step (line : String) : String :=
@@ -163,35 +158,27 @@ def step (line : String) : String :=
   | "argmin" :: k :: rest => stepSort "argmin" k rest
   | "argmax" :: k :: rest => stepSort "argmax" k rest
   | "minmax" :: k :: rest => stepSort "minmax" k rest
-  | ["reduce", n, ini] =>
-    match parseNat? n, parseInit? ini with
-    | some n, some ini =>
-      match reduce Tree.node (leaves n) ini with
-      | some t => t.show
-      | none => "TypeError"
-    | _, _ => "bad-op"
-  | ["acc", n, ini, m] =>
-    match parseNat? n, parseInit? ini with
-    | some n, some ini =>
-      if m == "BK" then showTrees (accumulate Tree.node (leaves n) ini .brentKung)
-      else if m == "SK" then showTrees (accumulate Tree.node (leaves n) ini .sklansky)
-      else "ValueError"
-    | _, _ => "bad-op"
-  | ["accs", n, ini, m] =>
-    match parseNat? n, parseInit? ini with
-    | some n, some ini =>
-      let x := match ini with | some a => a :: leaves n | none => leaves n
-      if m == "BK" then showTrees (bk Tree.node none x)
-      else if m == "SK" then showTrees (skl Tree.node x)
-      else "ValueError"
-    | _, _ => "bad-op"
-  | ["defmeth", p, n] =>
-    match parseNat? p, parseNat? n with
-    | some p, some n =>
-      match defaultMethod (p != 0) n with
-      | .brentKung => "BK"
-      | .sklansky => "SK"
-    | _, _ => "bad-op"
+  | ["reduce", n, ini] => (do
+      let n ← parseNat? n
+      let ini ← parseInit? ini
+      pure ((reduce Tree.node (leaves n) ini).elim "TypeError" Tree.show)).getD "bad-op"
+  | ["acc", n, ini, m] => (do
+      let n ← parseNat? n
+      let ini ← parseInit? ini
+      if m == "BK" then pure (showTrees (accumulate Tree.node (leaves n) ini .brentKung))
+      else if m == "SK" then pure (showTrees (accumulate Tree.node (leaves n) ini .sklansky))
+      else pure "ValueError").getD "bad-op"
+  | ["accs", n, ini, m] => (do
+      let n ← parseNat? n
+      let ini ← parseInit? ini
+      let x := withInitial ini (leaves n)
+      if m == "BK" then pure (showTrees (bk Tree.node none x))
+      else if m == "SK" then pure (showTrees (skl Tree.node x))
+      else pure "ValueError").getD "bad-op"
+  | ["defmeth", p, n] => (do
+      let p ← parseNat? p
+      let n ← parseNat? n
+      pure (match defaultMethod (p != 0) n with | .brentKung => "BK" | .sklansky => "SK")).getD "bad-op"
   | _ => "bad-op"
 
 def main : IO Unit := do MpycV.Util.loop (← IO.getStdin) step
